@@ -60,6 +60,7 @@ def install_hooks():
 WSI_1_IN = 3            # a blank/comment line gets its own (not the scope's) indentation in 1 of 3 cases
 WS_AFTER_OPENER_1_IN = 4  # a scope opener is followed by blank/comment lines before its body in 1 of 4 cases
 BLOCK_IN_REPEATED_1_IN = 6   # 1 of 6 programs gets a Block inside an Alarm body / inside a macro that is then called 2-3 times
+LATE_TRUE_1_IN = 5      # 1 of 5 Watch/Alarm conditions is false at the start and becomes true at a generated tick
 CUT_SHORT_1_IN = 7      # 1 of 7 programs with a macro gets the shape "call cut short by End block, macro called again"
 
 
@@ -217,7 +218,14 @@ def cases(draw, cfg: G.GenCfg, ticks: int, append_1_in: int = 5, keep_nested: bo
     # so that interrupt bodies run in a useful fraction of the cases; the trajectory may still switch them off and on
     def likely(nodes):
         for n in nodes:
-            if n["k"] in INTERRUPTS and (n.get("cut_short") or draw(st.booleans())):
+            if n["k"] in INTERRUPTS and not n.get("cut_short") and draw(st.integers(1, LATE_TRUE_1_IN)) == 1:
+                # false at the start values, true from a generated tick on: the interrupt is still pending while other
+                # threads execute End block(s) and must run afterwards
+                tag = n["cond"]["tag"]
+                n["cond"] = {"tag": tag, "op": ">=", "unit": G.UNITS_FOR[tag][0], "val": int(init[tag]) + 2}
+                traj.append([draw(st.integers(8, max(9, ticks // 2))), {tag: float(int(init[tag]) + 3)}])
+                traj.sort(key=lambda p_: p_[0])
+            elif n["k"] in INTERRUPTS and (n.get("cut_short") or draw(st.booleans())):
                 tag = n["cond"]["tag"]
                 n["cond"] = {"tag": tag, "op": draw(st.sampled_from(["=", "<=", ">=", "<", ">"])), "unit": G.UNITS_FOR[tag][0],
                              "val": int(init[tag])}
@@ -446,7 +454,7 @@ def run_trace(case, follow_up: bool = True) -> Trace:
             o = h.tick()
             ms = h.method_state()
             rec = {"no": o.no, "time": o.time, "block": o.block, "state": o.state, "status": o.status,
-                   "ev_end": len(h.events),
+                   "ev_end": len(h.events), "inputs": dict(h.hw.inputs),
                    "ws_started": [i for i in ms.started_line_ids if i in ws_ids],
                    "ws_executed": [i for i in ms.executed_line_ids if i in ws_ids]}
             tr.ticks.append(rec)
@@ -1010,6 +1018,68 @@ def analyse(tr: Trace):
                 cx.active.remove(b)
             block_end_idx[b] = ei
         # tick boundary checks are done below
+
+    # B6 -- 'End block' / 'End blocks' end the block(s) "together with ITS pending Watches and Alarms": a Watch/Alarm that is
+    # pending (registered, not activated) and does NOT lie in a block that ends survives.  Judged as a bounded response, only
+    # for an interrupt that was pending while a block that does not contain it ended: if afterwards its condition (tag's own
+    # unit, so a plain number comparison on the scripted input) holds on OUTER_W+1 consecutive judged ticks while it is still
+    # pending and none of its own enclosing blocks has ended, it must have activated by the end of that window.
+    OUTER_W = 4
+    lim5 = min([x for x in (stop["v5"], conc_stop[0]) if x is not None], default=None)
+    if not v5:
+        tick_ev_end = {t["no"]: t["ev_end"] for t in tr.ticks}
+        judged_ticks = [t for t in tr.ticks if t["ev_end"] <= len(tr.events) and (lim5 is None or t["ev_end"] <= lim5)]
+        inputs_at = {t["no"]: t.get("inputs", {}) for t in judged_ticks}
+
+        def holds(cond, tick):
+            v = inputs_at.get(tick, {}).get(cond["tag"])
+            if v is None:
+                return False
+            a, b_ = float(v), float(cond["val"])
+            return {"=": a == b_, "!=": a != b_, "<": a < b_, "<=": a <= b_, ">": a > b_, ">=": a >= b_}[cond["op"]]
+
+        last_judged = judged_ticks[-1]["no"] if judged_ticks else -1
+        for l in prog.lines:
+            if l.kind not in INTERRUPTS or prog.nested_interrupt_in_alarm(l.id) or any(prog.kind(a) == "macro" for a in prog.anc[l.id]):
+                continue
+            cond = (l.node or {}).get("cond") or {}
+            if cond.get("unit") != G.UNITS_FOR.get(cond.get("tag"), [object()])[0]:
+                continue
+            own_blocks = set(prog.block_ancestors(l.id))
+            reg = None          # (tick of registration) while pending
+            foreign_end = None  # tick of the first end of a block that does not contain the interrupt, while pending
+            killed = False
+            for e in tr.events[: (lim5 if lim5 is not None else len(tr.events))]:
+                if e[1] == "scope_start" and e[3] == l.id:
+                    reg, foreign_end, killed = e[0], None, False
+                elif e[1] == "scope_activate" and e[3] == l.id:
+                    reg = None
+                elif e[1] == "block_end" and reg is not None:
+                    b_ = prog.block.get(e[2])
+                    if b_ in own_blocks:
+                        reg = None                       # its own block ended: it ends with it
+                    elif foreign_end is None:
+                        foreign_end = e[0]
+                elif e[1] == "block_start" and reg is not None and prog.block.get(e[2]) in own_blocks:
+                    pass
+            if reg is None or foreign_end is None:
+                continue
+            # still pending at the end of the judged events, a foreign block ended while it was pending
+            if any(b_ not in cx.active for b_ in own_blocks):
+                continue
+            t0 = max(reg, foreign_end) + 2
+            run = 0
+            for tk in range(t0, last_judged + 1):
+                run = run + 1 if (holds(cond, tk) and holds(cond, tk - 1)) else 0
+                if run >= OUTER_W + 1:
+                    cur[0] = tick_ev_end.get(tk, len(tr.events))
+                    add(v5, "endblock-killed-outer-interrupt:%s" % l.kind,
+                        "%s was pending (registered tick %d) when a block that does not contain it ended (tick %d); its condition "
+                        "holds on ticks %d..%d, none of its own blocks has ended, but it never activated"
+                        % (txt(l.id), reg, foreign_end, tk - OUTER_W, tk))
+                    break
+            if v5:
+                break
 
     # Block tag at every tick end: replay the active chain per tick
     cx2_active: list = []
